@@ -7,6 +7,21 @@ package remedies
 //@ devirtall Cache => *MemoryCache
 // a deterministic function of its arguments (SHA-256 + hex of the selected path parameters)
 //@ pure extractHashedPathParams
+// ... and its body: what is hashed is the list of "name:value" pairs of the selected path parameters that have a value, in
+// configuration order (preceded by one empty entry per configured path, as the code allocates them), joined by "."
+//@ ghost func ppSelected(pp map[string]string, paths []sharedConfig.PayloadPath, j int) bool = paths[j].PayloadType == sharedConfig.PayloadRequestPathParams.String() && in(paths[j].Path, pp) && pp[paths[j].Path] != ""
+//@ pure Payload.String
+//@ func extractHashedPathParams
+//@   prop C12
+//@   modifies nothing
+//@   ghostlocal src gmap[int]int
+//@   ghostlocal pos gmap[int]int
+//@   loop 1 modifies nothing
+//@   loop 1 do src[len(values) - 1] = ite(ppSelected(pathParams, payloadPaths, idx1 - 1), idx1 - 1, src[len(values) - 1]); pos[idx1 - 1] = len(values) - 1
+//@   loop 1 invariant[len] len(values) >= len(payloadPaths) && len(values) <= len(payloadPaths) + idx1
+//@   loop 1 invariant[each-entry-is-name-colon-value] forall(i, len(payloadPaths), len(values), 0 <= src[i] && src[i] < idx1 && ppSelected(pathParams, payloadPaths, src[i]) && values[i] == sprintf("%s:%s", payloadPaths[src[i]].Path, pathParams[payloadPaths[src[i]].Path]))
+//@   loop 1 invariant[each-selected-parameter-has-an-entry] forall(j, 0, idx1, ppSelected(pathParams, payloadPaths, j) ==> len(payloadPaths) <= pos[j] && pos[j] < len(values) && values[pos[j]] == sprintf("%s:%s", payloadPaths[j].Path, pathParams[payloadPaths[j].Path]))
+//@   ensures[joined-with-dots] joined == strings.Join(values, ".")
 
 // ---------------------------------------------------------------- response-based throttling (C12)
 //@ ghost func rbtCache(p *ResponseBasedThrottlingPlugin) *utils.MemoryCache[CacheKey,CachedResponse] = p.responseCache.(*utils.MemoryCache[CacheKey,CachedResponse])
